@@ -12,6 +12,7 @@
 -/
 import Dirk.Lemmas.Run
 import Dirk.Spec.Slashing
+import Dirk.Props.KernelsEq
 
 namespace Dirk
 open Spec
@@ -77,5 +78,13 @@ example : (onAttest (onAttest [] [7] ⟨domAttester, 1, 2⟩ {}).2 [7] ⟨domAtt
 /-- … and refuses the double vote -/
 example : (onAttest (onAttest [] [7] ⟨domAttester, 1, 2⟩ {}).2 [7] ⟨domAttester, 0, 2⟩ {}).1 = .denied := by
   decide
+
+/-- **tie by translation.** The check function the theorems above are about is, for all inputs, the function
+    `factx` translates statement by statement from the current Go source of `runSignBeaconAttestationChecks`
+    (`Dirk/Gen/Kernels.lean`, regenerated on every run): a change to that Go function changes the generated
+    definition and this theorem stops building. -/
+theorem C01_kernel_is_source (r : AttReq) (st : AttState) :
+    attChecks r st = attWrap (Gen.attChecksGen r.domain r.src r.tgt st.src st.tgt) :=
+  attChecks_eq_gen r st
 
 end Dirk
